@@ -263,3 +263,23 @@ Section WithBlockDecoder.
       let '(_, _, d', _) := dd_decompress s d [] 0 (mkO false false true) 0 in (s', r, d')
     else (s', r, d).
 End WithBlockDecoder.
+
+(* ---- executable check of the bounds of one memory operation (Proofs.FrameDDictProofs.op_ok) -------
+   [maxBuf] = size of tmpOutBuffer, [lo, hi) = the dst window of the call.  The oracle evaluates it on
+   the operations of every call of the correspondence runs. *)
+Definition in_tmpb (maxBuf : Z) (p : ptr) (n : Z) : bool :=
+  match p with PTmp o => (0 <=? o) && (o + n <=? maxBuf) | _ => true end.
+Definition in_winb (lo hi : Z) (p : ptr) (n : Z) : bool :=
+  match p with PAbs a => (lo <=? a) && (a + n <=? hi) | _ => true end.
+Definition no_overlapb (p q : ptr) (n : Z) : bool :=
+  match p, q with PTmp a, PTmp b => (n =? 0) || (a + n <=? b) || (b + n <=? a) | _, _ => true end.
+Definition op_okb (maxBuf lo hi : Z) (op : mop) : bool :=
+  match op with
+  | MCopy dst src n => (0 <=? n) && negb (peq dst PNull) && negb (peq src PNull) && in_tmpb maxBuf dst n
+                       && in_winb lo hi dst n && in_tmpb maxBuf src n && no_overlapb dst src n
+  | MWrite dst bytes => negb (peq dst PNull) && in_tmpb maxBuf dst (zlen bytes) && in_winb lo hi dst (zlen bytes)
+  | MDecode dst cap dict ds bytes =>
+      (zlen bytes <=? cap) && negb (peq dst PNull) && in_tmpb maxBuf dst cap && in_winb lo hi dst cap
+      && (0 <=? ds) && in_tmpb maxBuf dict ds && (negb (peq dict PNull) || (ds =? 0))
+  end.
+Definition ops_okb (maxBuf lo hi : Z) (ops : list mop) : bool := forallb (op_okb maxBuf lo hi) ops.
